@@ -160,7 +160,7 @@ def genotype(
     if profile_name in ["exome", "wxs", "wes"]:
         gene.do_copy_number = False
         profile_name = "illumina"
-        params["min_coverage"] = 5.0
+        params.setdefault("min_coverage", 5.0)  # unless the user says otherwise
     elif profile_name == "wgs":
         profile_name = "illumina"
     elif profile_name == "pgrnseq-v1":
